@@ -10,6 +10,17 @@ var zzRes struct {
 	state      *sessionState
 	certsCalls int
 	certsOK    bool
+	chainOK    bool // verdict of re-verifying the ticket's client certificates under the current policy
+}
+
+// zzResCertsStillVerify models Conn.clientCertsStillVerify by its contract (the function itself
+// runs for real in zzH_c16_resume_or_fallback): nothing to verify without certificates or under a
+// non-verifying policy, otherwise the verdict of the chain verification.
+func zzResCertsStillVerify(c *Conn, certificates [][]byte) bool {
+	if c.config.ClientAuth < VerifyClientCertIfGiven || len(certificates) == 0 {
+		return true
+	}
+	return zzRes.chainOK
 }
 
 func zzResDecryptTicket(c *Conn, encrypted []byte) (*sessionState, bool) {
@@ -48,17 +59,19 @@ func zzSuiteList(name string) []uint16 {
 //verif:bound all of these symbolic: ticket verdict, session version in {GMSSL, TLS1.2}, session suite over 4 ids, the elements of the client-offered and configured suite lists (over {two GM ids, a TLS id, an unknown id}), the ClientAuth policy, tickets enabled/disabled; list lengths 0..2 and stored client certificates present/absent are case splits
 //verif:outside ticket authenticity itself (zzH_c16_ticket_decrypt); multi-connection histories
 //verif:stub (*github.com/tjfoc/gmsm/gmtls.Conn).decryptTicket zzResDecryptTicket
+//verif:stub (*github.com/tjfoc/gmsm/gmtls.Conn).clientCertsStillVerify zzResCertsStillVerify
 func zzH_c16_gate_gm() {
 	cfg := &Config{SessionTicketsDisabled: vBool("disabled"), ClientAuth: ClientAuthType(vInt("clientAuth", 0, 4))}
 	cfg.CipherSuites = zzSuiteList("cfg")
 	c := &Conn{config: cfg, vers: VersionGMSSL}
 	st := &sessionState{vers: []uint16{VersionGMSSL, VersionTLS12}[vInt("svers", 0, 1)],
-		cipherSuite: []uint16{GMTLS_SM2_WITH_SM4_SM3, GMTLS_ECDHE_SM2_WITH_SM4_SM3, TLS_RSA_WITH_AES_128_CBC_SHA, 0x1234}[vInt("ssuite", 0, 3)],
+		cipherSuite:  []uint16{GMTLS_SM2_WITH_SM4_SM3, GMTLS_ECDHE_SM2_WITH_SM4_SM3, TLS_RSA_WITH_AES_128_CBC_SHA, 0x1234}[vInt("ssuite", 0, 3)],
 		masterSecret: make([]byte, 48)}
 	if vChoice("scerts", 2) == 1 {
 		st.certificates = [][]byte{{1}}
 	}
 	zzRes.ticketOK, zzRes.state = vBool("ticketOK"), st
+	zzRes.chainOK = vBool("storedChainStillVerifies")
 	ch := &clientHelloMsg{vers: VersionGMSSL, sessionTicket: []byte{1, 2, 3}, cipherSuites: zzSuiteList("offer")}
 	hs := &serverHandshakeStateGM{c: c, clientHello: ch}
 	got := hs.checkForResumption()
@@ -77,7 +90,8 @@ func zzH_c16_gate_gm() {
 	need := cfg.ClientAuth == RequireAnyClientCert || cfg.ClientAuth == RequireAndVerifyClientCert
 	want := !cfg.SessionTicketsDisabled && zzRes.ticketOK && st.vers == VersionGMSSL &&
 		in(st.cipherSuite, ch.cipherSuites) && in(st.cipherSuite, cfg.CipherSuites) && implemented &&
-		!(need && !has) && !(has && cfg.ClientAuth == NoClientCert)
+		!(need && !has) && !(has && cfg.ClientAuth == NoClientCert) &&
+		!(has && cfg.ClientAuth >= VerifyClientCertIfGiven && !zzRes.chainOK)
 	if got {
 		vReach("resumed")
 		vAssert("resumes-only-under-all-conditions", want)
@@ -152,6 +166,7 @@ func zzSuiteListTLS(name string) []uint16 {
 //verif:bound all of these symbolic: ticket verdict; negotiated and session version in {TLS1.0, TLS1.1, TLS1.2}; session suite over {RSA-AES-CBC, ECDHE-RSA-AES-GCM, ECDHE-ECDSA-AES-GCM, unknown}; the elements of the offered and configured lists over those; the server's key capabilities (elliptic, ecdsa, rsa sign, rsa decrypt); the ClientAuth policy; tickets enabled/disabled. List lengths 0..2 and stored client certificates present/absent are case splits
 //verif:outside ticket authenticity itself (zzH_c16_ticket_decrypt); multi-connection histories
 //verif:stub (*github.com/tjfoc/gmsm/gmtls.Conn).decryptTicket zzResDecryptTicket
+//verif:stub (*github.com/tjfoc/gmsm/gmtls.Conn).clientCertsStillVerify zzResCertsStillVerify
 func zzH_c16_gate_tls() {
 	cfg := &Config{SessionTicketsDisabled: vBool("disabled"), ClientAuth: ClientAuthType(vInt("clientAuth", 0, 4))}
 	cfg.CipherSuites = zzSuiteListTLS("cfg")
@@ -163,6 +178,7 @@ func zzH_c16_gate_tls() {
 		st.certificates = [][]byte{{1}}
 	}
 	zzRes.ticketOK, zzRes.state = vBool("ticketOK"), st
+	zzRes.chainOK = vBool("storedChainStillVerifies")
 	ch := &clientHelloMsg{vers: c.vers, sessionTicket: []byte{1, 2, 3}, cipherSuites: zzSuiteListTLS("offer")}
 	hs := &serverHandshakeState{c: c, clientHello: ch,
 		ellipticOk: vBool("ellipticOk"), ecdsaOk: vBool("ecdsaOk"),
@@ -189,7 +205,8 @@ func zzH_c16_gate_tls() {
 	need := cfg.ClientAuth == RequireAnyClientCert || cfg.ClientAuth == RequireAndVerifyClientCert
 	want := !cfg.SessionTicketsDisabled && zzRes.ticketOK && st.vers == c.vers &&
 		in(st.cipherSuite, ch.cipherSuites) && in(st.cipherSuite, cfg.CipherSuites) && usable &&
-		!(need && !has) && !(has && cfg.ClientAuth == NoClientCert)
+		!(need && !has) && !(has && cfg.ClientAuth == NoClientCert) &&
+		!(has && cfg.ClientAuth >= VerifyClientCertIfGiven && !zzRes.chainOK)
 	if got {
 		vReach("resumed")
 		vAssert("resumes-only-under-all-conditions", want)
